@@ -49,3 +49,43 @@ func TestOracleAttributionOfEqualEvents(t *testing.T) {
 		t.Errorf("a stream in which the event of request 2 comes after the event of request 3 was not reported: %v", rc.out)
 	}
 }
+
+// The stream of /verif/replays/C19/thorough-seed2-000-d3f2aa.json: the UPDATED event of a stale
+// record object overtakes the NEW event of the re-created object it names as OldTreasure.
+func TestOracleStaleObjectUpdateBeforeNew(t *testing.T) {
+	b := func(s string) *hydrapb.Treasure {
+		return &hydrapb.Treasure{Key: "d1", IsExist: true, BytesVal: []byte(s)}
+	}
+	mk := func(seq int, st hydrapb.Status_Code, nw, old, del *hydrapb.Treasure) rec {
+		e := &hydrapb.Treasure{}
+		if nw == nil {
+			nw = e
+		}
+		if old == nil {
+			old = e
+		}
+		if del == nil {
+			del = e
+		}
+		return rec{Seq: seq, Msg: &hydrapb.SubscribeToEventsResponse{SwampName: "sw", Status: st, Treasure: nw, OldTreasure: old, DeletedTreasure: del, EventTime: timestamppb.Now()}}
+	}
+	v := func(s string) string { return valOf(b(s)) }
+	execs := []*exec{
+		{Lane: 0, Idx: 0, Op: op{K: "patch", Key: "d1"}, Val: v("39"), Status: "CREATED", Changed: true},
+		{Lane: 0, Idx: 2, Op: op{K: "shiftKeys", Keys: []string{"d1"}}, Shifted: []kv{{"d1", v("38")}}},
+		{Lane: 0, Idx: 3, Op: op{K: "patch", Key: "d1"}, Val: v("37"), Status: "CREATED", Changed: true},
+		{Lane: 1, Idx: 2, Op: op{K: "patch", Key: "d1"}, Val: v("38"), Status: "CREATED", Changed: true},
+		{Lane: 2, Idx: 2, Op: op{K: "patch", Key: "d1"}, Val: v("36"), Status: "PATCHED", Changed: true},
+		{Lane: 4, Idx: 0, Op: op{K: "del", Keys: []string{"d1"}}, Deleted: []string{"d1"}},
+	}
+	for _, e := range execs {
+		e.T1 = 1 << 62
+	}
+	rc := &roundCheck{swamp: "sw", required: true, conc: true, tol: 0, execs: execs, state0: map[string]mval{}, stateF: map[string]mval{"d1": {Val: v("37")}},
+		events: []rec{mk(0, hydrapb.Status_NEW, b("39"), nil, nil), mk(1, hydrapb.Status_DELETED, nil, nil, b("39")), mk(2, hydrapb.Status_UPDATED, b("36"), b("38"), nil),
+			mk(3, hydrapb.Status_NEW, b("38"), nil, nil), mk(4, hydrapb.Status_DELETED, nil, nil, b("38")), mk(5, hydrapb.Status_NEW, b("37"), nil, nil)}}
+	rc.run()
+	if len(rc.out) != 1 || rc.out[0].Sig != "payload:UPDATED:old-value:patch:other:concurrent-writers" {
+		t.Errorf("findings: %+v", rc.out)
+	}
+}
